@@ -9,9 +9,94 @@
    same kind (free / node / edge with the same endpoints), same node count, every node's
    out-/in-lists are permutations, every element's key-value list is a permutation, the alias maps
    agree in both directions, every index key is present in both with permuted (value,id) lists. *)
-From Agdb Require Import Bytes DbValue Graph DbModel Search Queries Revisions UndoBase UndoObs UndoWitness.
+From Agdb Require Import Bytes DbValue Graph DbModel Search Queries Revisions UndoBase UndoObs UndoWitness
+  UndoKv UndoGraph UndoDb UndoStepsKv UndoStepsKv2 UndoMain UndoFinal.
 From Coq Require Import Permutation.
 Open Scope Z_scope.
+
+(* ======================================================================================
+   Positive theorems (for every revision with fix_rollback_replace and fix_alias_steal_undo on,
+   in particular rv_fixed = /repo).
+
+   Vocabulary (theories/UndoDb.v, UndoGraph.v, UndoMain.v):
+   * `rep g a`   : the four slot arrays g are well formed (equal lengths, capacity <= 2^63, the free
+                   chain is duplicate free and consists of zeroed free slots, every node's out-/in-chain
+                   is duplicate free, consists exactly of the edges whose source/target it is and has
+                   the recorded degree, every edge's endpoints are nodes) and represent the abstract
+                   graph a (kinds, out-/in-lists, count, LIFO free list, capacity).
+   * `sim d d'`  : both states are well formed (graph `rep`, alias map a bijection, unique keys per
+                   element, unique index keys) and observationally equal: same kinds/endpoints, node
+                   count, adjacency up to order, SAME allocation stream (free list then capacity,
+                   capacity+1, ...), alias maps equal as functions, key-value lists permutations,
+                   index lists permutations.   `db_ok d := sim d d`.
+   * `pstep rv d d1` : d1 results from d by one mutation primitive of DbModel.v (insert_node_db,
+                   insert_edge_db, remove_edge_db on an edge, removal of an isolated node = last step
+                   of remove_node_db, insert_new_alias on an unused alias and alias-less element,
+                   insert_alias, remove_alias, insert_key_value of a new key,
+                   insert_or_replace_key_value, reserve_kv, remove_keys, remove_all_values,
+                   insert_index, remove_index); removals of indexed pairs carry the side condition
+                   that the index lists the pair (`idx_has`).   `psteps` = finite sequences.
+   ====================================================================================== *)
+
+(* C13_step_inverse — for each primitive: the commands cs it pushed, rolled back from the
+   post-state (or from any state similar to it — the congruence needed for sequences), give a
+   state similar to the pre-state.  The re-inserted node/edge gets its old slot because the free
+   list is LIFO (part of `sim`: same allocation stream). *)
+Theorem C13_step_inverse :
+  forall rv, fix_rollback_replace rv = true -> fix_alias_steal_undo rv = true ->
+  forall d d1, db_ok d -> pstep rv d d1 -> capacity (gr d1) <= two63z ->
+    exists cs, undo d1 = cs ++ undo d /\
+      (forall e, sim e d1 -> exists e', rollback_cmds rv e cs = ROk e' /\ sim e' d) /\
+      (exists d', rollback_cmds rv d1 cs = ROk d' /\ obs_eq d d') /\
+      db_ok d1.
+Proof. exact step_inverse. Qed.
+Print Assumptions C13_step_inverse.
+
+(* the equivalence is a congruence for the undo commands of a primitive *)
+Theorem C13_undo_congruence :
+  forall rv, fix_rollback_replace rv = true -> fix_alias_steal_undo rv = true ->
+  forall d d1 e1 e2 cs,
+    db_ok d -> pstep rv d d1 -> capacity (gr d1) <= two63z -> undo d1 = cs ++ undo d ->
+    sim e1 d1 -> sim e2 d1 ->
+    exists e1' e2', rollback_cmds rv e1 cs = ROk e1' /\ rollback_cmds rv e2 cs = ROk e2' /\ sim e1' e2'.
+Proof. exact undo_congruence. Qed.
+Print Assumptions C13_undo_congruence.
+
+(* C13_rollback_restores — every finite sequence of primitives executed from a well-formed state
+   with an empty undo stack (= inside one transaction) is undone by `rollback`: it succeeds and the
+   result is observationally equal to the start, with the same degree counters and handing out
+   the same ids afterwards; and it is again well formed.  (capacity <= 2^63: ids fit i64.) *)
+Theorem C13_rollback_restores :
+  forall rv, fix_rollback_replace rv = true -> fix_alias_steal_undo rv = true ->
+  forall d d1, db_ok d -> undo d = [] -> psteps rv d d1 -> capacity (gr d1) <= two63z ->
+    exists d', rollback rv d1 = ROk d' /\
+      obs_eq d d' /\
+      (forall n, slot_kind (gr d) n = KNode ->
+         edge_count_from (gr d) n = edge_count_from (gr d') n /\ edge_count_to (gr d) n = edge_count_to (gr d') n) /\
+      (forall k, capacity (gr d) + Z.of_nat k <= two63z -> capacity (gr d') + Z.of_nat k <= two63z ->
+         next_slots k (gr d) = next_slots k (gr d')) /\
+      db_ok d'.
+Proof. exact rollback_restores_obs. Qed.
+Print Assumptions C13_rollback_restores.
+
+(* non-vacuity: the empty database is well formed; a concrete 7-step history (2 nodes, an edge, an
+   alias, a property, the edge removed, the property replaced) satisfies the hypotheses; a concrete
+   graph with an edge satisfies the graph well-formedness premise *)
+Example C13_db_ok_new : db_ok db_new.
+Proof. exact db_ok_new. Qed.
+Print Assumptions C13_db_ok_new.
+
+Example C13_history_restored :
+  psteps rv_fixed db_new ex_d7 /\
+  node_count (gr ex_d7) = 2 /\ kvs_get (vals ex_d7) 1 = [(DString [x6b], DI64 2)] /\ length (undo ex_d7) = 7%nat /\
+  exists d', rollback rv_fixed ex_d7 = ROk d' /\ obs_eq db_new d' /\ db_ok d'.
+Proof. exact (conj ex_psteps ex_restored). Qed.
+Print Assumptions C13_history_restored.
+
+Example C13_graph_wf_example :
+  exists a, rep (gr ex_d5) a /\ ak a 3 = KEdge 1 2 /\ aout a 1 = [3] /\ ain a 2 = [3] /\ afree a = [].
+Proof. exact ex_rep. Qed.
+Print Assumptions C13_graph_wf_example.
 
 (* ---- the two defects of the pinned tree (all fix flags off), repaired by fix: commits ---- *)
 
